@@ -5,6 +5,7 @@ cd "$(dirname "$0")"
 export GOFLAGS=-mod=mod GOPROXY=off GOSUMDB=off GOTOOLCHAIN=local
 mkdir -p .build evidence replays
 ./check.sh C18 quick >/dev/null
+./tools/clibuild.sh >/dev/null 2>&1 || true
 # warm the -race build used by C11
 (cd mc && go build -race -overlay ../.build/overlay.json -o ../.build/check-race ./cmd/check) >/dev/null 2>&1 || true
 echo setup ok
